@@ -6,6 +6,7 @@ import ast
 from typing import Dict, List, Optional, Set
 
 from ..core import Unrecognised, whole_origins, attr_writes, call_name, calls_in, dotted, enclosing_def, facts, has_fact, module_of, origins, parent, qual, site, src, walk_local
+from ..memo import check_memo_keys
 from ..dispatch import check_flow_arity, find_flow_tables, resolve_handler, is_bound
 
 SOLVER = "src/isla/solver.py"
@@ -286,13 +287,53 @@ def rule_p6_p7(ctx):
     ctx.inventory["solution_state_constructions"] = n
 
 
+def rule_p8(ctx):
+    """Optimised Z3 queries: a variable is taken out of the 'flexible' class (no language constraint; its tree is REPLACED by a freshly built one from the
+    numeric model value) only if no substitution tree has been expanded yet - otherwise constraints already solved inside that tree are thrown away."""
+    import re as _re
+
+    m, meths = solver_methods(ctx)
+    f = meths["solve_smt_formulas_with_language_constraints"]
+    c = f"{SOLVER}:ISLaSolver.solve_smt_formulas_with_language_constraints"
+    n = 0
+    for a in walk_local(f):
+        if not (isinstance(a, ast.Assign) and len(a.targets) == 1 and isinstance(a.targets[0], ast.Name) and a.targets[0].id in ("length_vars", "int_vars")):
+            continue
+        n += 1
+        name = a.targets[0].id
+        if src(a.value) == "set()":
+            ctx.ok("P8-optimised-classes-guard", c, f"{name} = set()", site(a), "no variable handled outside the SMT language constraints")
+            continue
+        fs = facts(a)
+        texts = [(x.text, x.positive) for x in fs]
+        opt = has_fact(fs, "self.enable_optimized_z3_queries")
+        leafs = any((not pos) and _re.fullmatch(r"any\(\(?(\w+)\.children for \1 in tree_substitutions\.values\(\)\)?\)", t) for t, pos in texts)
+        mentions = any("children" in t for t, _ in texts) or "children" in src(a.value)
+        if opt and leafs:
+            ctx.ok("P8-optimised-classes-guard", c, f"{name} = {src(a.value)[:40]}", site(a), "only with optimised queries enabled and every substitution tree still an open leaf")
+        elif not leafs and not mentions:
+            ctx.viol("P8-optimised-classes-guard", c, f"{name} = {src(a.value)[:40]}", site(a),
+                     f"`{name}` is taken from infer_variable_contexts without the guard 'no substitution tree has children': for a partially expanded tree the numeric model value is parsed into a "
+                     "fresh tree that replaces it, so what was already solved inside that tree (e.g. a fixed leading digit) is lost and the emitted solution violates the constraint")
+        else:
+            raise Unrecognised("C01.P8", c, f"guard of `{name} = {src(a.value)[:40]}` not in the recognised shape (facts: {texts[:4]})")
+    if n < 4:
+        raise Unrecognised("C01.P8", c, f"only {n} bindings of length_vars/int_vars found (expected both branches)")
+    # the classes partition `variables`: the fallback branch makes every variable flexible
+    fl = [a for a in walk_local(f) if isinstance(a, ast.Assign) and src(a.targets[0]) == "flexible_vars"]
+    ok = any(src(a.value) == "set(variables)" for a in fl)
+    ctx.check(ok, "P8-optimised-classes-guard", c, "fallback: flexible_vars = set(variables)", site(f), "without optimised classes every variable must get its language constraint", "all variables flexible")
+
+
 def run(ctx) -> str:
+    ctx.guarded("P8", lambda: rule_p8(ctx))
     ctx.guarded("P1", lambda: rule_p1(ctx))
     ctx.guarded("P2", lambda: rule_p2(ctx))
     ctx.guarded("P3", lambda: rule_p3(ctx))
     ctx.guarded("P4", lambda: rule_p4(ctx))
     ctx.guarded("P5", lambda: rule_p5(ctx))
     ctx.guarded("P6P7", lambda: rule_p6_p7(ctx))
+    ctx.guarded("P9", lambda: ctx.inventory.__setitem__("memo_sites", check_memo_keys(ctx, "P9-memo-key", [SOLVER])))
     ctx.assume("DerivationTree.is_open/is_complete and Formula.__eq__ are correct; asserts are enabled developer contracts")
     ctx.assume("each elimination step is meaning-preserving (NOT decided here)")
     return EXPLANATION
